@@ -94,7 +94,13 @@ func c06r1(w *World, rr *RuleRun) {
 			}
 			w.Require(rr, site, "a response updates the table only after transactions.Have({source address, t}) = true for the same datagram", func(alt *Alt) (bool, string) {
 				if alt.Has("b", true, func(x *Term) bool {
-					if !isCall(x, have) || len(x.Args) != 2 {
+					// Have(key), or the comma-ok result of a dispatcher lookup on key
+					if x.Op == OpExtract && x.Name == "1" && len(x.Args) == 1 && x.Args[0].Op == OpCall && strings.HasPrefix(x.Args[0].Name, "(*transactions.Dispatcher[") {
+						x = x.Args[0]
+					} else if !isCall(x, have) {
+						return false
+					}
+					if len(x.Args) != 2 {
 						return false
 					}
 					return w.keyLiteralIs(site.Parent(), x.Args[1], func(fields map[string]*Term) bool {
